@@ -740,7 +740,7 @@ pub fn run_c03(ctx: &mut Ctx) {
     ctx.max_shrink_iters = 16;
     let saved = ctx.workers;
     // two load levels to vary the interleavings of the search and I/O threads
-    for (name, workers, pin, cases) in [("go_chains_16_at_a_time", 16usize, false, t.pick(1_000u32, 9_000u32)), ("go_chains_oversubscribed_48_at_a_time", 48usize, false, t.pick(800u32, 6_000u32)), ("go_chains_each_engine_pinned_to_one_core", 16usize, true, t.pick(500u32, 6_000u32))] {
+    for (name, workers, pin, cases) in [("go_chains_16_at_a_time", 16usize, false, t.pick(1_000u32, 30_000u32)), ("go_chains_oversubscribed_48_at_a_time", 48usize, false, t.pick(800u32, 20_000u32)), ("go_chains_each_engine_pinned_to_one_core", 16usize, true, t.pick(500u32, 20_000u32))] {
         ctx.workers = workers;
         run_prop(
             ctx,
@@ -765,7 +765,7 @@ pub fn run_c03(ctx: &mut Ctx) {
         ctx,
         "promotion_then_castling_chains",
         promo_castle_strategy,
-        t.pick(1_400, 8_000),
+        t.pick(1_400, 30_000),
         |r, st| {
             st.sample(|| json!({"position": promo_castle_texts(r).map(|x| x.0), "gos": promo_castle_texts(r).map(|x| x.2)}));
             c03_promo_castle(r, st)
@@ -1041,7 +1041,7 @@ pub fn run_c08(ctx: &mut Ctx) {
         ctx,
         "go_answered_in_bounded_time_then_responsive",
         || timed_strategy(250),
-        t.pick(1_500, 9_000),
+        t.pick(1_500, 60_000),
         |c, st| {
             st.sample(|| timed_json(c));
             c08_case(c, st)
@@ -1144,7 +1144,7 @@ pub fn run_c09_timed(ctx: &mut Ctx) {
         ctx,
         "measured_delay_vs_plan_real_binary",
         || (pos_spec_strategy(), proptest::collection::vec(go_spec_strategy(300), 1..4)).prop_map(|(pos, gos)| Timed9 { pos, gos }),
-        t.pick(650, 5_000),
+        t.pick(650, 25_000),
         |c, st| {
             st.sample(|| json!({"position": timed9_texts(c).map(|x| x.0), "gos": timed9_texts(c).map(|x| x.2)}));
             c09_timed_case(c, st)
@@ -1423,7 +1423,7 @@ pub fn run_c16(ctx: &mut Ctx) {
         ctx,
         "probe_after_arbitrary_traffic_vs_fresh_engine",
         || (proptest::collection::vec(prefix_cmd_strategy(), 0..25), rep_spec_strategy(), any::<u16>(), prop_oneof![2 => Just(false), 1 => Just(true)], prop_oneof![2 => Just(true), 1 => Just(false)]).prop_map(|(prefix, probe, slice, probe_in_prefix, settle)| C16Case { prefix, probe, slice, probe_in_prefix, settle }),
-        t.pick(440, 4_000),
+        t.pick(440, 8_000),
         |c, st| {
             st.sample(|| c16_json(c));
             c16_case(c, st)
@@ -1902,7 +1902,7 @@ pub fn run_c17(ctx: &mut Ctx) {
         ctx,
         "ignorable_input_and_lifecycle_sessions",
         || (pos_spec_strategy(), proptest::collection::vec((any::<u8>(), junk_line()), 0..10), prop_oneof![2 => Just(0u8), 2 => Just(1u8), 3 => Just(2u8), 3 => Just(3u8), 1 => Just(4u8), 3 => Just(5u8), 2 => Just(6u8), 3 => Just(7u8)], any::<u16>(), any::<u8>()).prop_map(|(pos, junk, ending, slice, go_noise)| C17Case { pos, junk, ending, slice, go_noise }),
-        t.pick(650, 5_000),
+        t.pick(650, 25_000),
         |c, st| {
             st.sample(|| c17_json(c));
             c17_case(c, st)
